@@ -38,4 +38,5 @@ def run(ctx):
     parallel.parallel_effects(ctx, 'C07', ['external::single_player_iter', 'vanilla::solve_generic_multi'])
     parallel.child_reach_fresh(ctx, 'C07', ['solve::vanilla::thread_threshold'])
     parallel.frontier_reach_form(ctx, 'C07')
+    parallel.frontier_search_pure(ctx, 'C07', ['external', 'vanilla'])
     parallel.no_unsafe(ctx, 'C07')
